@@ -35,8 +35,31 @@ Definition wf_failures (s : skeleton) : list nat :=
   ++ (if nodupb (method_keys s) then [] else [8])
   ++ bad_tops (skel_ctx s) 0 (s_tops s).
 
+(* which obligation of data_ok fails: 1 import paths, 2 qualifiers, 3 dot import, 4 an import no type needs, 5 no interface,
+   6 builtins shadowed, 1000*(i+1) + 100*(j+1) + k: interface i, method j (0 = the interface itself), k: 1 names, 2 result names,
+   3 exported names, 4 parameter types, 5 result types, 6 visible, 7 allocated names; interface: 1 type parameter names, 2 constraints *)
+Fixpoint idx {A} (f : nat -> A -> list nat) (i : nat) (l : list A) : list nat :=
+  match l with [] => [] | x :: t => f i x ++ idx f (S i) t end.
+Definition data_failures (f : fdata) (c : fctx) : list nat :=
+  (if nodupb (map fst (f_imports f)) then [] else [1]) ++ (if names_ok (map snd (f_imports f)) then [] else [2])
+  ++ (if forallb (fun q => negb (seqb q dot)) (map snd (f_imports f)) then [] else [3])
+  ++ (if forallb (fun q => smem q (all_type_quals f)) (map snd (f_imports f)) then [] else [4])
+  ++ (if nonempty (f_ifaces f) then [] else [5]) ++ (if d_builtins c then [] else [6])
+  ++ idx (fun i x =>
+            let tps := iftps x in
+            (if names_ok (map tdecl tps) then [] else [1000 * S i + 1])
+            ++ (if forallb (fun t => types_known c tps (tcon t)) tps then [] else [1000 * S i + 2])
+            ++ idx (fun j m =>
+                      let b := 1000 * S i + 100 * S j in
+                      (if names_ok (pnames (mps m)) then [] else [b + 1]) ++ (if names_ok (rnames (mrs m)) then [] else [b + 2])
+                      ++ (if names_ok (pexps (mps m)) then [] else [b + 3])
+                      ++ (if forallb (fun p => types_known c tps (pty p)) (mps m) then [] else [b + 4])
+                      ++ (if forallb (fun r => types_known c tps (rty r)) (mrs m) then [] else [b + 5])
+                      ++ (if forallb (fun n => smem n (mvisible m)) (pnames (mps m)) then [] else [b + 6])
+                      ++ (if d_tf_names m then [] else [b + 7])) 0 (ifms x)) 0 (f_ifaces f).
+
 Record verdict := { v_guards : bool; v_data : bool; v_names : bool; v_wf_model : bool; v_wf_ext : bool;
-                    v_model_fail : list nat; v_ext_fail : list nat; v_diff : list nat }.
+                    v_model_fail : list nat; v_ext_fail : list nat; v_diff : list nat; v_data_fail : list nat }.
 
 Definition check_case (c : case) : verdict :=
   let m := model c in
@@ -44,7 +67,7 @@ Definition check_case (c : case) : verdict :=
                && match c_tmpl c with Matryer o => d_mt o (c_data c) (skel_ctx m) | Testify _ => d_tf (c_data c) end; v_names := file_names_ok m;
      v_wf_model := wf_file m; v_wf_ext := wf_file (c_ext c);
      v_model_fail := wf_failures m; v_ext_fail := wf_failures (c_ext c);
-     v_diff := skel_diff m (c_ext c) |}.
+     v_diff := skel_diff m (c_ext c); v_data_fail := data_failures (c_data c) (skel_ctx m) |}.
 
 (* main stream: inside all guards, data model sane, both skeletons well scoped, model = extracted *)
 Definition case_ok (c : case) : bool :=
@@ -78,3 +101,4 @@ Definition gen_mismatches := gen_mismatches_from 0.
 Fixpoint strs_eqb (a b : list str) : bool :=
   match a, b with [], [] => true | x :: a', y :: b' => seqb x y && strs_eqb a' b' | _, _ => false end.
 Definition reserved_agrees (from_code : list str) : bool := strs_eqb from_code reserved_names.
+
